@@ -126,7 +126,9 @@ def run_job(job):
                 bad = ("noquiesce", {})
             if bad is None:
                 j = P.judge(w)
-                if not j["converged"]:
+                if j["busy"] and not base.get("busy"):
+                    bad = ("busy", {"pending": j["busy"]})
+                elif not j["converged"]:
                     bad = ("diverge", j["trees"])
                 elif j["lost"]:
                     bad = ("lost:" + ",".join(j["lost"]), j["trees"])
